@@ -42,6 +42,21 @@ Theorem C14_B5_for_step_order_fixed : complete_deviates w_B5_for_step_order [97;
 Proof. vm_compute. reflexivity. Qed.
 Print Assumptions C14_B5_for_step_order_fixed.
 
+(* a.lua: local a = 1, 2, 3, function(p) return p end\nuse(a)\n *)
+Definition w_local_surplus : list (list N * list N) :=
+  [([97; 46; 108; 117; 97], [108; 111; 99; 97; 108; 32; 97; 32; 61; 32; 49; 44; 32; 50; 44; 32; 51; 44; 32; 102; 117; 110; 99; 116; 105; 111; 110; 40; 112; 41; 32; 114; 101; 116; 117; 114; 110; 32; 112; 32; 101; 110; 100; 10; 117; 115; 101; 40; 97; 41; 10])].
+(* unvisited_local_surplus, FIXED (fixes/C20-local-surplus.diff): cgLocalVarDeclStat left its expression loop (`break`)
+   after the FIRST initialiser beyond the names of `local a = 1, 2, <here>, <and here>`: the later ones were never
+   analysed by any pass - their closures got no scope, the names read there no reference.  `before_surplus` = the code
+   of /repo before that repair; the witness deviates there and no longer for the code now in /repo. *)
+(* the closure in the last value had no scope: its parameter p was not offered behind `return p` (line 0, column 39) *)
+Theorem C14_local_surplus_refuted_before_fix : complete_deviates_fx before_surplus w_local_surplus [97; 46; 108; 117; 97] 0 39 = true.
+Proof. vm_compute. reflexivity. Qed.
+Print Assumptions C14_local_surplus_refuted_before_fix.
+Theorem C14_local_surplus_fixed : all_in_fragment w_local_surplus = true /\ complete_deviates w_local_surplus [97; 46; 108; 117; 97] 0 39 = false.
+Proof. vm_compute. split; reflexivity. Qed.
+Print Assumptions C14_local_surplus_fixed.
+
 (* the full statement was refuted for the code before the repair; for the code now in /repo no deviating cursor is
    known (B5 was the only class of C14) - the proved parts are the theorems below, the rest is decided by the legs *)
 Theorem C14_complete_full_refuted_before_fix : ~ complete_full_stmt_fx no_fixes.
